@@ -161,6 +161,28 @@ def specs_family_rand(tier, rng):
         ins = [F.to_text(w) for w in F.enriched_inputs(G, 3, extra_len=3, rng=rng, alphabet=('X', 'Y', 'Z'))]
         out.append({'family': 'F_rand', 'gtext': F.grammar_text(G, term_defs=F.TERM3), 'rules': F.rules_json(G),
                     'terms': {'X': 'x', 'Y': 'y', 'Z': 'z'}, 'ignore': [], 'inputs': ins, 'modes': MODES})
+    # nullable non-terminals completed early in a column and reached again two or more rule levels down a later prediction
+    # (held completions H of the Earley predictor), from a non-initial position
+    import itertools
+    chains = [(('s', ('e', 'a', 'Y')), ('a', ('b',)), ('b', ('e', 'X')), ('e', ())),
+              (('s', ('e', 'a', 'Y')), ('a', ('b',)), ('b', ('c',)), ('c', ('e', 'X')), ('e', ())),
+              (('s', ('X', 'e', 'a')), ('a', ('b',)), ('b', ('e', 'Y')), ('e', ()), ('e', ('Z',))),
+              (('s', ('e', 'a')), ('a', ('b', 'Y')), ('a', ('X',)), ('b', ('e', 'c')), ('c', ('X',)), ('c', ()), ('e', ()), ('e', ('Z',))),
+              (('s', ('e', 'e', 'a')), ('a', ('b',)), ('a', ('a', 'Y')), ('b', ('e', 'e', 'X')), ('e', ())),
+              (('s', ('a', 'b')), ('a', ()), ('a', ('X',)), ('b', ('c', 'Y')), ('c', ('d',)), ('d', ('a', 'a', 'Z')), ('d', ('Z',)))]
+    for Gb in chains:
+        for perm in itertools.permutations('XYZ'):
+            ren = dict(zip('XYZ', perm))
+            G0 = tuple((l, tuple(ren.get(x, x) for x in rhs)) for l, rhs in Gb)
+            for k in range(2 if tier == 'quick' else 6):
+                G = G0
+                if k:       # an extra random alternative somewhere
+                    nts = sorted({l for l, _ in G0})
+                    extra = (rng.choice(nts), tuple(rng.choice(nts[1:] + ['X', 'Y', 'Z']) for _ in range(rng.choice([1, 2]))))
+                    G = tuple(sorted(set(G0) | {extra}, key=lambda r: (r[0] != 's', r)))
+                ins = [F.to_text(w) for w in F.enriched_inputs(G, 4, extra_len=1, rng=rng, alphabet=('X', 'Y', 'Z'))]
+                out.append({'family': 'F_nullchain', 'gtext': F.grammar_text(G, term_defs=F.TERM3), 'rules': F.rules_json(G),
+                            'terms': {'X': 'x', 'Y': 'y', 'Z': 'z'}, 'ignore': [], 'inputs': ins, 'modes': MODES})
     return out
 
 
